@@ -36,7 +36,7 @@ TARGETS = {
     P + "dispatching/_ready_operation_filters.py": ["C07", "C08"],
     P + "dispatching/_factories.py": ["C07", "C10"],
     P + "dispatching/_history_observer.py": ["C10", "C12"],
-    P + "dispatching/_unscheduled_operations_observer.py": ["C10", "C12"],
+    P + "dispatching/_unscheduled_operations_observer.py": ["C05", "C11", "C10", "C12"],
     P + "dispatching/rules/_dispatching_rules_functions.py": ["C04"],
     P + "dispatching/rules/_utils.py": ["C04"],
     P + "dispatching/rules/_dispatching_rule_solver.py": ["C04"],
@@ -298,6 +298,30 @@ def run(outfile, worker, nworkers):
         shutil.rmtree(vc, ignore_errors=True)
 
 
+def one(outfile, mid, checks):
+    """Evaluate one mutant of the campaign against the given comma-separated checks (triage of a survivor)."""
+    spec = json.loads(Path(outfile).read_text())
+    it = [x for x in spec["items"] if x["id"] == mid][0]
+    new = regenerate(it, spec["seed"], spec["per_file"])
+    tag = f"{mid}_{os.getpid()}"
+    wt, vc = f"/tmp/mc1_wt_{tag}", f"/tmp/mc1_vc_{tag}"
+    rc, out = sh(f"git -C {REPO} worktree add -q --detach {wt} HEAD")
+    assert rc == 0, out
+    try:
+        Path(wt, it["file"]).write_text(new)
+        sh(f"rsync -a --exclude .git --exclude .work --exclude seeded --exclude evidence/replay --exclude __pycache__ "
+           f"--exclude states {VERIF}/ {vc}/")
+        env = dict(ENV, PYTHONPATH=wt, VERIF_REPO=wt)
+        for pid in checks.split(","):
+            rc, out = sh(f"./check {pid} --tier quick", cwd=vc, env=env, timeout=3600)
+            clauses = sorted({ln.split("clause=")[1].split(" at ")[0] for ln in out.splitlines() if "clause=" in ln})
+            print(mid, it["file"].split("/")[-1], it["line"], it["desc"][:50], "|", pid, "exit", rc, clauses[:4], flush=True)
+    finally:
+        sh(f"git -C {REPO} worktree remove --force {wt}")
+        shutil.rmtree(wt, ignore_errors=True)
+        shutil.rmtree(vc, ignore_errors=True)
+
+
 def report(outfile):
     rows = []
     for p in sorted(Path(outfile).parent.glob(Path(outfile).name + ".*.jsonl")):
@@ -314,4 +338,4 @@ def report(outfile):
 
 if __name__ == "__main__":
     a = sys.argv[1:]
-    {"gen": gen, "run": run, "report": report}[a[0]](*a[1:])
+    {"gen": gen, "run": run, "report": report, "one": one}[a[0]](*a[1:])
